@@ -71,7 +71,7 @@ def hbExpected : Option Oid → List Oid → List Ev → List Oid
       (match cur with
        | some o => hbExpected none (on.erase o) es
        | none => hbExpected none on es)
-    | .tCmd _ _ | .tInput _ _ | .tCo _ _ | .tReset _ | .tConnect _ | .tLogon _ | .cycle _ => hbExpected none on es
+    | .tCmd _ _ | .tInput _ _ | .tIt _ _ _ | .tCo _ _ | .tReset _ | .tConnect _ | .tLogon _ | .cycle _ => hbExpected none on es
     | _ => hbExpected cur on es
 
 def finalHbs (es : List Ev) : Option (List String) :=
@@ -91,8 +91,12 @@ def linesOf (sends : List (Nat × String)) (client : Nat) : List String :=
 def servedCmds (es : List Ev) (u : Oid) : List String :=
   es.filterMap (fun e => match e with | .tCmd o v => if o = u then some v else none | _ => none)
 
+/-- the lines that reached the user object: through process_input, or through a pending input_to() callback -/
 def servedInputs (es : List Ev) (u : Oid) : List String :=
-  es.filterMap (fun e => match e with | .tInput o v => if o = u then some v else none | _ => none)
+  es.filterMap (fun e => match e with
+    | .tInput o v => if o = u then some v else none
+    | .tIt o _ v => if o = u then some v else none
+    | _ => none)
 
 def goneUsers (es : List Ev) : List Oid :=
   es.filterMap (fun e => match e with
@@ -193,6 +197,8 @@ def turnsOk : List Oid → List Oid → List Ev → List String
   | _, _, [] => []
   | _, _, .cycle _ :: es => turnsOk [] [] es
   | ins, cmds, .tInput u _ :: es =>
+    if ins.contains u then [s!"turns {u.name} served twice in one iteration"] else turnsOk (u :: ins) cmds es
+  | ins, cmds, .tIt u _ _ :: es =>
     if ins.contains u then [s!"turns {u.name} served twice in one iteration"] else turnsOk (u :: ins) cmds es
   | ins, cmds, .tCmd u _ :: es =>
     if cmds.contains u then [s!"turns {u.name} served twice in one iteration"] else turnsOk ins (u :: cmds) es
